@@ -51,6 +51,18 @@ CHECKS = {
  "C16": dict(cat="model_checking", tech="explicit request-sequence enumeration of the real auth.Client against an in-process two-registry/two-realm world with a secret-scanning innermost transport; delay-bounded schedule enumeration for concurrent requests (token-fetch sharing and hand-over)",
    text="Every request sequence up to length 3/4 x pair of per-registry auth modes x cache flavour x scheme change x challenge-scope rendering is run through the real client; the innermost transport scans every outgoing request for the other registry's secrets, counts sends and token fetches; 2-3 concurrent requests through one cache are explored under every schedule within the bound, including a first caller cancelled during the token fetch; CleanScopes is compared with an independent canonicaliser on every list of <= 3 scopes.",
    note="NewSingleContextCache is judged only on host and scheme (its documented contract)."),
+ "C05": dict(cat="model_checking", tech="exhaustive enumeration of byte strings x descriptors x reader behaviours (chunking, zero reads, early EOF, errors, trailing bytes) x 18 targets; Read/Verify call-sequence enumeration; delay- and preemption-bounded schedule enumeration of racing good/bad pushes with a concurrent observer",
+   text="Every content string of length <= 3 (4) over two bytes plus one buffer-crossing string, every descriptor variant and every reader behaviour is pushed/read through every built-in store, wrapper and helper; success is allowed only when the first Size bytes hash to Digest, failures must leave nothing visible and no new file under blobs/; 2-3 concurrent pushers of good and bad content under one digest (plus an observer) are explored under every schedule within D<=3 / P<=2.",
+   note="Counted, not judged: refusing good content, Push accepting bytes beyond Size, ingest/ leftovers."),
+ "C11": dict(cat="exploration", tech="exhaustive enumeration of title annotations (<= 4 segments, relative/absolute, 4 working-directory states) and tar entry sequences (regular/dir/symlink/hardlink over link-heavy alphabets, up to 2-5 entries) pushed into a real file store in a sandbox, with an outside-of-working-directory snapshot oracle and an independent symlink-aware path resolver",
+   text="Every case is one real Push with default options; a recursive picture (type, mode, content, link target, inode identity) of everything outside the working directory is compared before/after, and a name or entry that the harness's own resolver places outside must be rejected.",
+   note="Sandbox on tmpfs, process CWD inside it; absolute entry names and accepted symlinks that merely point outside are counted, not judged."),
+ "C12": dict(cat="exploration", tech="exhaustive enumeration of directory trees (names, modes, sizes, symlinks, duplicate contents) x 128 option/intermediate-store configurations through the real Add -> PackManifest -> Copy -> Copy pipeline with a tar-level and tree-level oracle",
+   text="Every tree of the three families (names, modes, duplicate blobs) is added to a file store, packed, copied through memory / OCI / remote (registry model) / file and restored into a second file store under all 16 option combinations; the archive is decoded entry by entry, the restored tree compared recursively, descriptors checked against the stored bytes, reproducible tars compared across timestamps, wrong uncompressed digests must be refused.",
+   note="Runs as root (permission failures unreachable); umask 022 and 077. One known finding (IgnoreNoName drops same-bytes duplicates)."),
+ "C18": dict(cat="model_checking", tech="explicit Put/Get/Delete history enumeration against a JSON-document model, crash-point enumeration of every save (vos freeze before each mutating file-system operation), delay-bounded schedule enumeration of 3 concurrent callers, strace/SIGKILL conformance of the shim",
+   text="All histories of <= 4 (5) operations over 4 address pairs x 13 pre-existing documents in lockstep with a hand-written model; every credential in a 6^4 product round-trips; the last operation of every history is interrupted before each mutating file-system operation and the file must be the old or the new complete document with mode 0600; 3 goroutines under every schedule within D<=2 (3) must leave the file equal to some permutation.",
+   note="Unknown values are compared as JSON values (the encoder may re-escape bytes). Process-kill crash model."),
 }
 
 checks, na = [], []
